@@ -164,3 +164,9 @@ def check_C10(tier, seed, res, replay=None):
     res.count_cases(cases, nt)
     res.add_samples([c for c in cases if nt(c)][:3])
     run_events(res, rd, "c10", cases, "TraceFA.tla", timeout_ms=3000)
+    import cli_arm
+    cmdof = {"union": "union", "isect": "isect", "witness": "witness", "unreach": "load-p", "useless": "load-s"}
+    pick = [c for c in cases if c["kind"] in cmdof and "preA" not in c and "preB" not in c and nt(c)]
+    rng.shuffle(pick)
+    cli_cases = [dict({"id": c["id"], "cmd": cmdof[c["kind"]], "A": c["A"]}, **({"B": c["B"]} if "B" in c else {})) for c in pick[:8000 if tier == "thorough" else 1500]]
+    cli_arm.judge(res, rd, "c10", cli_arm.fa_op_events(cli_cases, rd), "TraceFA.tla")
